@@ -67,3 +67,6 @@ func (v *VerifWorld) SetKillBehaviour(fails func(taskId string) bool) {
 		go v.M.updateTaskStatus(&mesos.TaskStatus{TaskID: mesos.TaskID{Value: id}, State: &st})
 	}
 }
+
+// VerifMessageTaskCount tells how many tasks a message to the task manager names.
+func VerifMessageTaskCount(msg *TaskmanMessage) int { return len(msg.tasks) }
